@@ -14,7 +14,12 @@ from .interp import Engine, Infeasible
 from .sym import Unsupported
 
 VERIF = os.path.dirname(os.path.dirname(os.path.abspath(__file__)))
-REPO = os.environ.get("QVC_REPO", "/repo")
+REPO = os.environ.get("QVC_REPO", "/repo")   # (QVC_REPO: scratch worktree when trying seeded changes; registered commands never set it)
+OUT = os.environ.get("QVC_OUT", VERIF)         # where evidence/ and replays/ are written (scratch runs must not overwrite the committed evidence)
+if REPO != "/repo":
+    import sys as _sys
+    _sys.path.insert(0, REPO)
+    os.environ["PYTHONPATH"] = REPO + os.pathsep + os.environ.get("PYTHONPATH", "")
 
 
 class Obl:
@@ -183,9 +188,9 @@ class Run:
         return 1 if nviol else 0
 
     def _violation(self, o, replay_fn, lines):
-        os.makedirs(os.path.join(VERIF, "replays"), exist_ok=True)
+        os.makedirs(os.path.join(OUT, "replays"), exist_ok=True)
         h = hashlib.sha256((o.name + json.dumps(o.instance, sort_keys=True, default=str)).encode()).hexdigest()[:10]
-        path = os.path.join(VERIF, "replays", f"{self.pid}-{h}.json")
+        path = os.path.join(OUT, "replays", f"{self.pid}-{h}.json")
         rec = {"property": self.pid, "obligation": o.name, "instance": o.instance, "info": o.info,
                "solver": o.result["log"], "model": o.result["model"], "seed": self.seed, "tier": self.tier}
         found = None
@@ -261,8 +266,8 @@ class Run:
         ev = {"property_id": self.pid, "tier": self.tier, "seed": self.seed, "level": "proof" if proof else "other",
               "coverage": cov, "assumptions": self.assumptions, "wall_s": round(time.time() - self.t0, 2),
               "violations": len(self.violations)}
-        os.makedirs(os.path.join(VERIF, "evidence"), exist_ok=True)
-        with open(os.path.join(VERIF, "evidence", f"{self.pid}.json"), "w") as f:
+        os.makedirs(os.path.join(OUT, "evidence"), exist_ok=True)
+        with open(os.path.join(OUT, "evidence", f"{self.pid}.json"), "w") as f:
             json.dump(ev, f, indent=1, default=str)
 
 
